@@ -115,6 +115,26 @@ pub fn run(rep: &mut Report, thorough: bool) {
         sweep_frames(rep, cfg, &format!("ethertype-{}", tag), "EtherType 0..65535 x 3 inner payloads", 65536 * 3, |i| {
             eth(&MAC_SRV, &MAC_CLI, (i % 65536) as u16, &inner[(i / 65536) as usize])
         });
+        // tagged frames: an 802.1Q / 802.1ad / legacy QinQ tag in front of a complete eliciting frame
+        // (the outer EtherType is not ARP / IPv4 / IPv6: nothing is answered; and a reply, if any,
+        // would have to mirror the request's EtherType)
+        {
+            let kinds4t = [Kind::Arp, Kind::Echo, Kind::Syn, Kind::Stun];
+            let kinds6t = [Kind::Ns, Kind::Echo, Kind::Syn, Kind::Stun];
+            let tpids: [u16; 4] = [0x8100, 0x88a8, 0x9100, 0x8847];
+            let tcis: [u16; 4] = [0x0000, 0x0005, 0x0fff, 0xe001];
+            sweep_frames(rep, cfg, &format!("tagged-frames-{}", tag), "4 tag protocol ids x 4 tag values x 4 eliciting kinds x {v4,v6} x {single tag, double tag}", 4 * 4 * 4 * 2 * 2, |i| {
+                let d = unrank(i, &[4, 4, 4, 2, 2]);
+                let inner = if d[3] == 1 { elicit(kinds6t[d[2] as usize], &MAC_SRV, &cli6(), &srv6()) } else { elicit(kinds4t[d[2] as usize], &MAC_SRV, &cli4(), &srv4()) };
+                let mut fr = inner[..12].to_vec();
+                for _ in 0..=d[4] {
+                    fr.extend_from_slice(&tpids[d[0] as usize].to_be_bytes());
+                    fr.extend_from_slice(&tcis[d[1] as usize].to_be_bytes());
+                }
+                fr.extend_from_slice(&inner[12..]);
+                fr
+            });
+        }
         // (c) IP protocol / next header: all 256 values over inner bytes shaped as ICMP / TCP / UDP
         let l4s: Vec<(bool, Vec<u8>)> = {
             let mut v = Vec::new();
